@@ -124,6 +124,10 @@ def rule_dynamic_clause_templates(ctx):
             want, name = COMPLETE_REF, "complete/preferred"
         elif sems == {"ST"}:
             want, name = STABLE_REF, "stable"
+        elif "?" in sems or not sems:
+            n += 1
+            r.ok(b.id, "NOT decided: which semantics select %s is not read off a match on the semantics (a predicate method, an `==` test)" % b.path.rsplit("::", 1)[-1], b.loc())
+            continue
         else:
             r.violation(b.id, "dispatch:%s" % sorted(sems), "the clause-issuing function %s is selected for semantics %s (expected CO|PR or ST)" % (b.path, sorted(sems)), b.loc())
             continue
@@ -164,6 +168,26 @@ def rule_dynamic_clause_templates(ctx):
                     clo = prog.lib(fa)
                     if clo is not None and any(callee_decl(callee_of(x)) == "aa::aa_framework::Attack::attacker" for x in clo.calls()) and not any(callee_decl(callee_of(x)) == "aa::aa_framework::Attack::attacked" for x in clo.calls()):
                         attacker = True
+        if not (ok and attacker):
+            # a list filled by hand: `for att in af.iter_attacks_to(arg_by_id(id)) { ids.push(att.attacker().id()) }`
+            from ..prov import prov as _pv, subterms as _sub
+            from .grounded import _is_call as _isc
+
+            pushed = []
+            for o in origins(reenc, s.node["args"][ap], transparent=("core::ops::deref::Deref::deref", "alloc::vec::Vec::as_slice")):
+                if o.kind == "call" and o.site is not None and callee_decl(o.data) in ("alloc::vec::Vec::new", "alloc::vec::Vec::with_capacity"):
+                    for ms in reenc.mut_call_defs.get(o.site.node["dst"]["l"], []):
+                        if callee_decl(callee_of(ms)) == "alloc::vec::Vec::push":
+                            pushed += list(_pv(prog, reenc, ms.node["args"][1]))
+            ids = set(_pv(prog, reenc, s.node["args"][sp]))
+            if pushed:
+                good = all(_isc(e, r"Label::id$", 1) and _isc(e[2][0], r"Attack::attacker$", 1) and e[2][0][2][0][0] == "elem" and _isc(e[2][0][2][0][1], r"iter_attacks_to$") and any(_isc(z, r"get_argument_by_id$", 2) and z[2][1] in ids for z in _sub(e[2][0][2][0][1])) for e in pushed)
+                wrongdir = any(any(_isc(z, r"Attack::attacked$|iter_attacks_from(_id)?$") for z in _sub(e)) for e in pushed)
+                if good:
+                    ok = attacker = True
+                elif not wrongdir:
+                    r.ok("%s|attackers@%s" % (reenc.id, strip_generics(t.path).rsplit("::", 1)[-1]), "NOT decided: the attacker ids are collected in a form the rule does not follow", s.loc())
+                    continue
         r.check(ok and attacker, "%s|attackers@%s" % (reenc.id, strip_generics(t.path).rsplit("::", 1)[-1]), "attacker-ids", "attacker ids = ids of the attackers in iter_attacks_to(re-encoded argument)", "the ids handed to %s are not the attackers of the re-encoded argument" % t.path, s.loc())
     # a -> -P_a when an argument is created under CO|PR
     newarg = [b for b in prog.lib_bodies() if b.kind != "closure" and strip_generics(b.path) == ENC + "::new_argument"]
@@ -189,7 +213,16 @@ def rule_dynamic_clause_templates(ctx):
                     sems = vs if sems is None else sems & vs
             if len(els) >= 1 and all(e[0] == "-" for e in els) and len(allocs) == 2 and sems == {"CO", "PR"}:
                 ok = True
-        r.check(ok and len(adds) == 1, b.id, "no-a-implies-not-Pa", "creating an argument under CO|PR adds (-a or -P_a) on its two fresh variables", "new_argument does not add the clause -a or -P_a on the two freshly allocated variables under CO|PR", b.loc())
+        unresolved = False
+        if not ok:
+            # the clause goes through a private `add_clause` wrapper of the encoder, or the semantics are tested by a predicate method
+            wrapped = [s for s in b.calls() if prog.body_for_callee(callee_of(s), b) is not None and prog.body_for_callee(callee_of(s), b).impl and prog.body_for_callee(callee_of(s), b).impl.get("self_adt") == ENC and any(callee_matches(callee_of(x), r"sat_solver::SatSolver::add_clause$") for x in prog.body_for_callee(callee_of(s), b).calls()) and prog.body_for_callee(callee_of(s), b).ret_ty == "()" and prog.body_for_callee(callee_of(s), b).n_args == 2]
+            if (not adds and wrapped) or (adds and any(not c.is_discr for a_ in adds for c in conditions(b, a_.bb))):
+                unresolved = True
+        if unresolved:
+            r.ok(b.id, "NOT decided: the clause added when an argument is created is issued in a form the rule does not follow (a wrapper of add_clause / a predicate on the semantics)", b.loc())
+        else:
+            r.check(ok and len(adds) == 1, b.id, "no-a-implies-not-Pa", "creating an argument under CO|PR adds (-a or -P_a) on its two fresh variables", "new_argument does not add the clause -a or -P_a on the two freshly allocated variables under CO|PR", b.loc())
 
 
 def rule_dynamic_variable_registration(ctx):
@@ -227,6 +260,34 @@ def rule_dynamic_variable_registration(ctx):
                 n_a += 1
                 filt = [c for c in calls if callee_decl(callee_of(c)) in tags.FILTERING]
                 r.check(not filt, "%s|attackers" % b.id, "filtered:%s" % sorted({callee_decl(callee_of(c)).rsplit("::", 1)[-1] for c in filt}), "the attacker list is the whole `iter_attacks_to` iteration", "the attackers of the re-encoded argument are filtered (%s): an attack that is dropped here is missing from the clauses" % sorted({callee_decl(callee_of(c)).rsplit("::", 1)[-1] for c in filt}), s2.loc())
+            # ... or a loop over the iterator that pushes one id per attack
+            loops = b.loops()
+            for nx in b.calls():
+                if callee_decl(callee_of(nx)) != "core::iter::traits::iterator::Iterator::next":
+                    continue
+                seen, calls, _ = data_deps(b, nx.node["args"][0])
+                if not any((c.bb, c.si) == (s.bb, s.si) for c in calls):
+                    continue
+                ls = [(h, bl) for h, bl in loops if nx.bb in bl]
+                if not ls:
+                    continue
+                h, bl = min(ls, key=lambda x: len(x[1]))
+                pushes = [ps for ps in b.calls() if ps.bb in bl and callee_decl(callee_of(ps)) == "alloc::vec::Vec::push" and "usize" in str(callee_of(ps).get("substs"))]
+                if not pushes:
+                    continue
+                n_a += 1
+                filt = [c for c in calls if callee_decl(callee_of(c)) in tags.FILTERING]
+                ps = pushes[0]
+                seen_b, st, skip = {h}, [h], False
+                while st:
+                    x = st.pop()
+                    for sc in b.succ[x]:
+                        if sc == h:
+                            skip = True
+                        elif sc in bl and sc != ps.bb and sc not in seen_b and not b.blocks[sc]["cleanup"]:
+                            seen_b.add(sc)
+                            st.append(sc)
+                r.check(not filt and not skip, "%s|attackers" % b.id, "filtered:%s" % (sorted({callee_decl(callee_of(c)).rsplit("::", 1)[-1] for c in filt}) or "loop-skip"), "the attacker list gets one id per element of the whole `iter_attacks_to` iteration", "the attackers of the re-encoded argument are filtered (an iteration of the loop can go round without pushing an id, or the iterator is filtered): an attack that is dropped here is missing from the clauses", ps.loc())
     r.floor(n_a, 1, "attacker lists collected in the dynamic encoders")
     # (b)
     n_b = 0
